@@ -23,7 +23,7 @@ import sys
 import tempfile
 import time
 
-TRACE = "openat,open,creat,mkdir,mkdirat,write,pwrite64,ftruncate,truncate,rename,renameat,renameat2," \
+TRACE = "openat,open,creat,mkdir,mkdirat,write,pwrite64,lseek,ftruncate,truncate,rename,renameat,renameat2," \
         "unlink,unlinkat,rmdir,link,linkat,symlink,symlinkat,newfstatat,stat,lstat,statx"
 
 LINE = re.compile(r"^(\d+)\s+(.*)$")
@@ -179,6 +179,11 @@ def parse(trace_path, base):
                     plans[cur].append("opentrunc:" + rp)
                 elif "O_CREAT" in fl:
                     plans[cur].append("opencreat:" + rp)
+                continue
+            if name == "lseek":
+                m2 = re.match(r"^(\d+)", args[0])
+                if m2:
+                    offsets[int(m2.group(1))] = ret
                 continue
             if name in ("write", "pwrite64"):
                 m2 = re.match(r"^(\d+)(?:<(.*)>)?$", args[0])
